@@ -133,6 +133,7 @@ PROPS = {
     },
     "C17": {
         "module": "GtfsVerif.Props.C17",
+        "extra_modules": ["GtfsVerif.Props.C17Groups"],
         "trusted_base": RT_TB,
         "partial": ["elevator grouping over a whole feed is proved on the pre-pass model (C17_group_keys: one group per distinct documented id; C17_group_stops: the group's entry is not skipped, carries the documented id, cause maintenance and effect accessibility issue, and informs exactly the distinct stops of all its members; C17_group_stops_perm: the same set for any order; later members skipped); composed with ParseRealtime's merge loop in C17_alerts_end_to_end (Realtime.Alerts is exactly the pre-pass entries that are not skipped, each turned into an alert, in feed order) and C17_group_alert_in_result (for every group of any feed the result contains the alert with the documented id, cause maintenance, effect accessibility issue, informing exactly the distinct stops of all members; the entry at a group's position provably comes from an alert-only entity); the same is checked end to end by the correspondence and the oracle",
                     "the JSON text of the NYCT metadata is opaque in the model (a marker); its presence is modelled exactly"],
